@@ -56,16 +56,22 @@ for ss, ps, start in grid:
       add("distributed_shampoo.update", [ss, ps, start, t], "warm-up update differs from the graft-only optimizer's")
     st = new
 
-for fs, fp in ([(1, 1), (2, 3)] if tier == "quick" else list(itertools.product((1, 2, 3), (1, 2, 3)))):
+for fs, fp in ([(1, 1), (2, 3), (3, 2)] if tier == "quick" else list(itertools.product((1, 2, 3), (1, 2, 3)))):
   cases += 1
   opts = tsh.Options(block_size=4, update_statistics_freq=fs, update_preconditioners_freq=fp)
   tx = tsh.apply(opts)
   p = jnp.zeros((4, 3))
   st = tx.init(p)
+  stale = True  # statistics changed since the roots were last refreshed
   for t in range(6):
     u, new = tx.update(jnp.asarray(rng.randn(4, 3).astype(np.float32)), st, p)
     if int(new.count) != int(st.count) + 1:
       add("tearfree.shampoo", [fs, fp, t], "count did not advance by one")
+    stale = stale or t % fs == 0
+    if t % fp == 0:
+      if stale and same(st.blocks.roots, new.blocks.roots):
+        add("tearfree.shampoo", [fs, fp, t], "roots not refreshed on the preconditioner schedule although the statistics changed since the last refresh")
+      stale = False
     if t % fs != 0 and not same(st.blocks.stats, new.blocks.stats):
       add("tearfree.shampoo", [fs, fp, t], "statistics changed off schedule")
     if t % fs == 0 and same(st.blocks.stats, new.blocks.stats):
